@@ -139,4 +139,24 @@ CHECKS = {
             dict(test="TestC06Listing", unit="listing", kind="rapid", checks=(1200, 24000), shards=(8, 16)),
         ],
     ),
+    "C01": dict(
+        level="exploration",
+        technique="property-based testing (rapid): constructed hostile paths x 8 opcodes in histories, judged by (1) clamped-or-nonexistent response model, (2) marker scan, (3) sentinel-tree snapshot, (4) two-world metamorphic run",
+        rule="a world = scratch directory holding the served root (generated tree + PS3ISO/g.iso with a plausible region table, a game directory, sub-directories) surrounded by "
+             "sentinels: siblings named <root>-other, <root>x, <root>.bak, an unrelated sibling, files beside the root, key files in outside REDKEY/PS3ISO directories; every "
+             "outside name and content carries a marker, sizes come from a reserved set. paths are built from segments {.., ., empty, names inside, sibling names, the root's "
+             "own name, marker names, ***DVD***/***PS3***, CLOSEFILE, PS3ISO, REDKEY, 255-byte name, NUL-containing name, backslash forms}, 1..7 segments, doubled separators, "
+             "with/without leading/trailing separator or virtual prefix, up to 64 KiB long, sent with each of the 8 path-carrying opcodes inside histories (listing reads, READ/"
+             "WRITE follow-ups), writing on and off. oracle: a path whose lexical walk leaves the root must be answered like its clamped form or exactly like a non-existent "
+             "path (for mutating requests: effect on the clamped target or none, reply truthful); no reply byte stream may contain an outside marker (ASCII/UTF-16BE); the "
+             "recursive snapshot of everything outside the root must be identical before/after; for read-only sessions the reply stream must be byte-identical when the "
+             "outside is emptied. unit bin: the same on the real binary with the root spelled absolute / relative / default '.' / './x/' / trailing slash / via '..'. non-trivial = "
+             "path that leaves the root lexically, or carries NUL / over-long / doubled-separator / virtual-prefix / prefix-sibling segments; distinct by (opcode, shape, write "
+             "mode, target+spelling, path)",
+        assumptions=[INPROC + " (unit bin runs the real binary)", "symlinks inside the root are followed by design and are not generated here"],
+        units=[
+            dict(test="TestC01Inproc", unit="inproc", kind="rapid", checks=(2400, 60000), shards=(8, 16)),
+            dict(test="TestC01Bin", unit="bin", kind="rapid", checks=(96, 1600), shards=(8, 16), bin=True),
+        ],
+    ),
 }
